@@ -342,6 +342,22 @@ func (d *driver) runHistory(h *history) error {
 				} else if s.Delta > 0 {
 					limit += uint64(s.Delta)
 				}
+				// never push out the fraction that is being written to
+				simulate := func(lim uint64) int {
+					var size uint64
+					for _, f := range cur {
+						size += f.Full
+					}
+					k := 0
+					for size > lim && k < len(cur) {
+						size -= cur[k].Full
+						k++
+					}
+					return k
+				}
+				if len(cur) > 0 && simulate(limit) >= len(cur) {
+					limit = cur[len(cur)-1].Full
+				}
 				ex, _ := json.Marshal(extraReq{Limit: limit})
 				var after []fracObs
 				if after, e = call(s, storectl.Req{Op: "c15.shrink", Extra: ex}, nil, cur, limit); e == nil {
